@@ -465,6 +465,7 @@ pub fn run(toks: &[&str]) -> String {
 /// C18: one snapshot() against a writer that stalled (mode 1: generation left odd right after the
 /// reader's first generation load; mode 2: a complete update lands before every re-load).
 ///   stall <mode>  ->  <accesses> <result C|F|E> <first 24 access kinds> <ms>
+/// mode 4: the generation reads 0 from the first cell load of the call on (a restarted daemon that never publishes).
 /// mode 3: the client holds publication 1; publication 2 completes; the daemon dies in update 3 after
 /// the odd generation store and four cells, right after the client's first generation load.  The
 /// call exhausts its budget (E); the NEXT call (generation still odd) must answer with what the
@@ -507,6 +508,10 @@ pub fn run_stall(toks: &[&str]) -> String {
                 if n == 3 && mode == 1 {
                     // the daemon starts an update right after the reader's first generation load, then stalls
                     unsafe { ((base + OFF_GENERATION) as *mut u16).write_volatile(3) };
+                }
+                if n == 3 && mode == 4 {
+                    // the segment starts reading "being re-initialised" (generation 0) while the call is copying, and stays so
+                    unsafe { ((base + OFF_GENERATION) as *mut u16).write_volatile(0) };
                 }
                 if n == 3 && mode == 3 {
                     // the daemon starts update 3, stores four cells of it, and dies
